@@ -20,7 +20,21 @@ def run(tier, seed, replay_rows=None):
         r = vlib.run_tlc(mod, cfg, workers=16, timeout=1800)
         vlib.require_tlc_ok(r, cfg)
         ck.add_tlc(cfg, r)
+    # the mutant configuration of the same specification - a push that only ADDS the families it carries (POST) - must
+    # leave an earlier run's samples on the gateway
+    r = vlib.run_tlc("MC_Metrics", "Mut_Metrics_PushAdd.cfg", workers=4, timeout=600)
+    if r.violated != "GatewayMirrorsRun":
+        raise vlib.MachineryError("Mut_Metrics_PushAdd.cfg should violate GatewayMirrorsRun on the spec but gave %s" % r.summary())
+    ck.add_tlc("Mut_Metrics_PushAdd.cfg", r)
+    ck.notes["mutant_configs_refuted"] = 1
     runtraces.check(ck, "C16", rows=replay_rows)
+    if replay_rows is None:
+        # the exported metric as the push gateway holds it: consecutive runs (passing, mixed, failing setup, interrupted
+        # before the first iteration) on one metrics instance pushing to a gateway with the real PUT / POST semantics
+        import json
+        vlib.flow(ck, mcs=[], sub="c16push", trace_module="Trace_Gateway", trace_cfg="Trace_Gateway.cfg",
+                  trace_file="c16push.ndjson", var="l", key_of=lambda r: "gateway-does-not-mirror-the-run@" + r["kind"],
+                  describe=lambda r: json.dumps(r)[:600], workers=2)
     return ck.finish()
 
 
